@@ -342,7 +342,7 @@ def summarize_handler(F, fn, call_summaries=None, max_states=96):
                 # peels the callee frame: callee slot and arguments leave the parent's stack, no result comes back
                 eff = sem.lin_add(eff, {"1": -1})
                 nnotes = nnotes + (("split",),)
-            elif n in ("runtime_error", "runtime_error_from_str", "set_error", "internal_error") and "<impl laythe_vm::vm::Vm>" in f:
+            elif (n in ("runtime_error", "runtime_error_from_str", "set_error", "internal_error") and "<impl laythe_vm::vm::Vm>" in f) or f in sem.error_raisers(F):
                 nsig = "ERR"
             elif n == "set_exit" and "<impl laythe_vm::vm::Vm>" in f:
                 nsig = "Exit"
